@@ -445,8 +445,10 @@ impl LockFreeMemoryPool {
             let (current_offset, current_gen) = Self::unpack_head(packed);
 
             if current_offset == LIST_TAIL {
-                // Empty bin, need to allocate new memory
-                return self.allocate_new_block(size);
+                // Empty bin, need to allocate new memory. Carve a block of the whole size
+                // class: once freed it is re-issued for ANY size of this class, so a block
+                // cut to a smaller request would overlap its neighbour
+                return self.allocate_new_block(FAST_BIN_SIZES[bin_index]);
             }
             #[cfg(feature = "zipora_verif")]
             crate::verif_hooks::sched_point(201);
@@ -495,8 +497,8 @@ impl LockFreeMemoryPool {
             }
         }
 
-        // Max retries exceeded, fall back to new allocation
-        self.allocate_new_block(size)
+        // Max retries exceeded, fall back to new allocation (again a whole size-class block)
+        self.allocate_new_block(FAST_BIN_SIZES[bin_index])
     }
 
     /// Deallocate to fast bin using lock-free stack
